@@ -16,6 +16,7 @@
 //   lattice_copy          Lattice copied, the original destroyed, chain built from the copy
 //   partial_ops <i>       FieldOperatorContainer::prepareAll({i}); operators of i used
 //   partial_ops_other <i> <j>   ... then getCreationOperator(j) for j not prepared (PENDING probe)
+//   indexperm             Symmetrizer::IndexPermutation / generateTrivialCombination for 2, N, 3, N+1 indices in one process
 //   ops_twice <i>         prepareAll({i}); objects referring to the operators of i constructed; prepareAll() and prepareAll({i}) again; the objects used
 //   labels                getBlockNumber / getInnerState / getEigenValue / getWeight at 0, 2^N-1, 2^N, 2^N+1, ULONG_MAX
 //   indexinfo             getInfo at every index, at IndexSize (throws), getIndex of unknown modes, checkIndex
@@ -160,6 +161,22 @@ static void run_seq(const std::vector<std::string>& t) {
             ParticleIndex j = L(t[3]);
             const CreationOperator& cx = ops.getCreationOperator(j);     // documented: "Makes on-demand computation"
             use(double(cx.getIndex()));
+        }
+    } else if (c == "indexperm") {
+        // Symmetrizer::IndexPermutation (index permutations as candidate lattice symmetries) for systems of several sizes in ONE process:
+        // cyclic permutations of 2, then N, then 3, then N+1 indices; every object computes its cycle length on construction
+        pv::ED e; if (!e.build(sc, "dm")) throw std::runtime_error(e.error);
+        unsigned sizes[4] = {2u, unsigned(e.Idx->getIndexSize()), 3u, unsigned(e.Idx->getIndexSize()) + 1u};
+        for (int k = 0; k < 4; ++k) {
+            unsigned n = sizes[k] < 2 ? 2 : sizes[k];
+            std::vector<ParticleIndex> v(n);
+            for (unsigned i = 0; i < n; ++i) v[i] = (i + 1) % n;
+            DynamicIndexCombination comb(v);
+            Symmetrizer::IndexPermutation perm(comb);
+            use(double(perm.getCycleLength()));
+            use(double(perm.getIndices(0).getIndex(0)));
+            const DynamicIndexCombination& triv = Symmetrizer::generateTrivialCombination(n);
+            use(double(triv.getIndex(n - 1)));
         }
     } else if (c == "ops_twice") {
         // objects that keep references to the container's operators, then a second prepareAll() that covers the same index again
